@@ -144,6 +144,23 @@ pub fn c03(tier: &str, seed: u64, meta: &str) -> Report {
                 rep.fail(json!({"what": "with suggestions off the returned string is not transliteration(leading) + transliteration(word) + transliteration(trailing)",
                     "typed": text, "leading": l, "word": wd, "trailing": r, "option_bits": bits, "expected": expected, "implementation": got, "session": s.describe()}));
             }
+            // every prefix on the way is itself a typed text (punctuation only, word only, word + trailing): the string
+            // returned for it is the transliteration of its three parts too, whatever was composed before in this context
+            let tchars: Vec<char> = text.chars().collect();
+            if tchars.len() <= 12 {
+                for j in 0..tchars.len().saturating_sub(1) {
+                    let pre: String = tchars[..=j].iter().collect();
+                    let (pa, pb, pc) = msplit(w, &pre, false);
+                    let exp = format!("{}{}{}", w.oracle.conv(&pa), w.oracle.conv(&pb), w.oracle.conv(&pc));
+                    if let Out::Single { text: g, .. } = &steps[j].out {
+                        if *g != exp {
+                            rep.fail(json!({"what": "with suggestions off the string returned for a typed prefix is not transliteration(leading) + transliteration(word) + transliteration(trailing)",
+                                "typed": pre, "leading": pa, "word": pb, "trailing": pc, "option_bits": bits, "expected": exp, "implementation": g, "session": s.describe()}));
+                            break;
+                        }
+                    }
+                }
+            }
             if !l.is_empty() || !r.is_empty() { rep.nontrivial_key(&text); }
             if rep.samples.len() < 2 && i % 211 == 0 { rep.sample(json!({"typed": text, "option_bits": bits, "returned": got})); }
         } else {
